@@ -135,6 +135,7 @@ func runCKKSShare(c *eng.Ctx, cc caseCfg) {
 	if w == nil {
 		return
 	}
+	w.setX(cc)
 	c.Sample(cc)
 	cp, n, params := w.cp, w.cf.Parties, w.params
 	nd := ksNoise(params, w.fl)
@@ -155,7 +156,7 @@ func runCKKSShare(c *eng.Ctx, cc caseCfg) {
 		return
 	}
 	freshB := 1 + pkEncBound(params, float64(n*params.N()))
-	for ctLevel := params.MaxLevel(); ctLevel >= 0; ctLevel-- {
+	for _, ctLevel := range w.levels(params.MaxLevel()) {
 		logSlots := w.pickLogSlots(cp.LogMaxSlots())
 		m := w.newMessage(ctLevel, eng.Pick(w.rnd, "sk", "pk"), logSlots)
 		ct := m.ct
@@ -171,6 +172,11 @@ func runCKKSShare(c *eng.Ctx, cc caseCfg) {
 		shareLevel := minLevel + w.rnd.N(ctLevel-minLevel+1)
 		if w.rnd.N(3) == 0 {
 			shareLevel = minLevel
+		}
+		// used receivers: the public share is allocated above the level it ends up at (the ciphertext's)
+		allocAbove := w.x.Dirty && w.rnd.Bool()
+		if allocAbove {
+			shareLevel = ctLevel
 		}
 		ct0 := snapshot(ct)
 		r := params.RingQ().AtLevel(shareLevel)
@@ -190,12 +196,16 @@ func runCKKSShare(c *eng.Ctx, cc caseCfg) {
 		half := pow2(logBound - 1)
 		good := true
 		for i := 0; i < n && good; i++ {
-			protos[i] = e2s
-			if i%2 == 1 {
-				protos[i] = e2s.ShallowCopy()
+			protos[i] = inst(w, "ckks-e2s", i, e2s, mpckks.EncToShareProtocol.ShallowCopy)
+			if allocAbove {
+				pub[i] = protos[i].AllocateShare(params.MaxLevel())
+				c.Count("x_shares_allocated_above_their_level", 1)
+			} else {
+				pub[i] = protos[i].AllocateShare(shareLevel)
 			}
-			pub[i] = protos[i].AllocateShare(shareLevel)
+			w.dirtyPoly(params, pub[i].Value)
 			sec[i] = mpckks.NewAdditiveShare(cp, logSlots)
+			w.dirtyBig(sec[i].Value, int(logBound))
 			var gerr error
 			if !c.Try(sigE+".GenShare", func() { gerr = protos[i].GenShare(w.in.sk[i], logBound, ct, &sec[i], &pub[i]) }) {
 				good = false
@@ -203,6 +213,11 @@ func runCKKSShare(c *eng.Ctx, cc caseCfg) {
 			}
 			if gerr != nil {
 				c.Violate(sigE+".GenShare|error-on-admissible", fmt.Sprintf("logBound=%d level=%d log2Q=%d: %v", logBound, shareLevel, r.ModulusAtLevel[shareLevel].BitLen(), gerr), w.cf)
+				good = false
+				break
+			}
+			if pub[i].Level() != shareLevel {
+				c.Violate(sigE+".GenShare|share-level", fmt.Sprintf("level %d want %d", pub[i].Level(), shareLevel), w.cf)
 				good = false
 				break
 			}
@@ -232,6 +247,7 @@ func runCKKSShare(c *eng.Ctx, cc caseCfg) {
 				break
 			}
 			e2sPool.add(e)
+			w.ppool("ckks-e2s", i).add(e)
 			for j := range eSum {
 				eSum[j].Add(eSum[j], e[j])
 			}
@@ -298,6 +314,7 @@ func runCKKSShare(c *eng.Ctx, cc caseCfg) {
 			}
 		}
 		outShare := mpckks.NewAdditiveShare(cp, logSlots)
+		w.dirtyBig(outShare.Value, int(logBound))
 		if !c.Try(sigE+".GetShare", func() {
 			switch shape {
 			case "alias":
@@ -386,11 +403,9 @@ func runCKKSShare(c *eng.Ctx, cc caseCfg) {
 		c0Polys := make([]ring.Poly, n)
 		good = true
 		for i := 0; i < n && good; i++ {
-			p := s2e
-			if i%2 == 1 {
-				p = s2e.ShallowCopy()
-			}
+			p := inst(w, "ckks-s2e", i, s2e, mpckks.ShareToEncProtocol.ShallowCopy)
 			c0[i] = p.AllocateShare(crpLevel)
+			w.dirtyPoly(params, c0[i].Value)
 			var gerr error
 			before := cp2(addSh[i].Value)
 			if !c.Try(sigS+".GenShare", func() { gerr = p.GenShare(outKeys.sk[i], crp, ct.MetaData, addSh[i], &c0[i]) }) {
@@ -420,6 +435,7 @@ func runCKKSShare(c *eng.Ctx, cc caseCfg) {
 				break
 			}
 			s2ePool.add(e)
+			w.ppool("ckks-s2e", i).add(e)
 			c0Polys[i] = c0[i].Value
 		}
 		if !good {
@@ -455,6 +471,7 @@ func runCKKSShare(c *eng.Ctx, cc caseCfg) {
 			}
 		}
 		ctRec := ckks.NewCiphertext(cp, 1, crpLevel)
+		w.dirtyCt(params, ctRec)
 		*ctRec.MetaData = *ct.MetaData
 		var rerr error
 		if !c.Try(sigS+".GetEncryption", func() { rerr = s2e.GetEncryption(aggC0, crp, ctRec) }) {
@@ -477,6 +494,8 @@ func runCKKSShare(c *eng.Ctx, cc caseCfg) {
 	}
 	checkFloor(c, sigE+".GenShare", e2sPool, nd.Sigma, nd.Sigma)
 	checkFloor(c, sigS+".GenShare", s2ePool, nd.Sigma, nd.Sigma)
+	w.checkPools("ckks-e2s", sigE+".GenShare", nd.Sigma, nd.Sigma)
+	w.checkPools("ckks-s2e", sigS+".GenShare", nd.Sigma, nd.Sigma)
 }
 
 func cabs(z complex128) float64 { return math.Hypot(real(z), imag(z)) }
